@@ -143,6 +143,70 @@ pub fn run(report: &Report, thorough: bool) -> Evidence {
         },
         |_| (),
     );
+    // ---- class sweep (one step, states set through the hook): the graph above has two consonants, two
+    // signs and two independent vowels as representatives; here EVERY consonant x EVERY vowel sign and
+    // independent vowel (x chandrabindu, x a two-member conjunct) gets the reph key.
+    // ---- option sweep: the reph rule must not depend on any OTHER option: all 2^6 settings of
+    // {English, suggestions (no database), number pad, ANSI, smart quotes, traditional joining}.
+    let sweep = AtomicU64::new(0);
+    {
+        let consonants: Vec<char> = ('\u{0995}'..='\u{09B9}').filter(|c| crate::bn::is_consonant(*c)).chain(['\u{09CE}', '\u{09DC}', '\u{09DD}', '\u{09DF}']).collect();
+        let vowels: Vec<char> = ('\u{0985}'..='\u{0994}').filter(|c| crate::bn::is_indep_vowel(*c)).chain(('\u{09BE}'..='\u{09CC}').filter(|c| crate::bn::is_common_sign(*c))).collect();
+        let mut texts: Vec<String> = vec![];
+        for &c in &consonants {
+            texts.push(c.to_string());
+            texts.push(format!("\u{0995}{}", c));
+            texts.push(format!("{}\u{0981}", c));
+            texts.push(format!("\u{0995}\u{09CD}{}", c));
+            for &v in &vowels {
+                texts.push(format!("{}{}", c, v));
+                texts.push(format!("{}{}\u{0981}", c, v));
+                texts.push(format!("\u{0986}{}\u{09CD}\u{09A4}{}", c, v));
+            }
+        }
+        par_for(
+            64,
+            1,
+            |w| scratch_xdg(&format!("c13s-{}", w)),
+            |xdg, bits| {
+                let mut o = Opts::fixed(&layout, "", xdg);
+                o.reph = true;
+                o.english = bits & 1 != 0;
+                o.fsugg = bits & 2 != 0;
+                o.numpad = bits & 4 != 0;
+                o.ansi = bits & 8 != 0;
+                o.smart = bits & 16 != 0;
+                o.kar = bits & 32 != 0;
+                let mut ctx = Ctx::new(&o).expect("context");
+                ctx.with_pre = false;
+                let reph = &alphabet[0];
+                for p in &texts {
+                    crate::fxgraph::restore(&ctx, &crate::fxgraph::FxState { buf: p.clone(), typed: String::new(), pending: 0 });
+                    sweep.fetch_add(1, Ordering::Relaxed);
+                    let got = match ctx.apply(reph) {
+                        Ok(Out::Sugg(r)) => r.text(),
+                        other => {
+                            report.add(Violation::new("C13", "panic", "panic:class-sweep").opts(&o).feat("pre", crate::bn::esc(p)).events(&[reph.clone()]).detail(format!("reph on {:?} (state set directly): {:?}", p, other)));
+                            continue;
+                        }
+                    };
+                    let exp = reph_ref(p).expect("sweep texts are well formed");
+                    if got != exp {
+                        let last = p.chars().last().unwrap();
+                        report.add(
+                            Violation::new("C13", "reph-placement", &format!("placement:sweep:{}", if crate::bn::is_consonant(last) { "C".to_string() } else { crate::bn::esc(&last.to_string()) }))
+                                .opts(&o)
+                                .feat("pre", crate::bn::esc(p))
+                                .feat("synthetic_state", "true")
+                                .events(&[reph.clone()])
+                                .detail(format!("reph on {:?} (state set directly) gave {:?}, expected {:?}", p, got, exp)),
+                        );
+                    }
+                }
+            },
+            |_| (),
+        );
+    }
     let st = total.lock().unwrap().clone();
     let mut ev = Evidence::new("C13", &report.tier, "model_checking");
     ev.set("states", st.states);
@@ -155,6 +219,7 @@ pub fn run(report: &Report, thorough: bool) -> Evidence {
     ev.set("placement_checked_reph_actually_moved", moved.load(Ordering::Relaxed));
     ev.set("distinct_well_formed_texts", distinct_texts.lock().unwrap().len());
     ev.set("conservation_only_outside_grammar", conservation_only.load(Ordering::Relaxed));
+    ev.set("class_and_option_sweep_reph_presses", sweep.load(Ordering::Relaxed));
     ev.set("option_off_checked", option_off.load(Ordering::Relaxed));
     ev.set("closed", *closed_all.lock().unwrap());
     ev.set("exhaustive", *closed_all.lock().unwrap());
